@@ -13,7 +13,9 @@ import zlib
 import numpy
 from hypothesis import strategies as st
 
-from vcheck import build, env, gen, lattice, opcheck, refmodel as R
+from mpmath import mpf
+
+from vcheck import build, env, gen, lattice, mpbackend, opcheck, refmodel as R
 from vcheck.catalog import OPS
 from vcheck.props import c03, c14
 
@@ -70,6 +72,10 @@ def cells(tier):
         out.append({"id": f"threads|{k}", "group": "threads", "proc": "plain", "shard": k})
     for k in range(2 if tier == "quick" else 8):
         out.append({"id": f"threads|hooks|{k}", "group": "hooks", "proc": "plain", "shard": k})
+    # every catalogued operation in every coordinate-system signature once (the error-state / warnings handling lives in each
+    # compute module's own dispatch and kernels, so coverage has to be per signature, not per operation)
+    for k in range(16):
+        out.append({"id": f"sweep|{k}", "group": "sweep", "proc": "plain", "shard": k})
     out.append({"id": "threads|cold", "group": "cold", "proc": "plain"})
     return out
 
@@ -137,6 +143,15 @@ def strategy(cell, tier):
         # a pool of distinct generated calls, repeated to a few hundred (Hypothesis' entropy budget bounds the pool size)
         return st.fixed_dictionaries({"pool": st.lists(_step(), min_size=24, max_size=40),
                                       "repeat": st.integers(8, 12 if tier == "quick" else 40), "perm": st.integers(0, 2**30)})
+    if cell["group"] == "sweep":
+        return st.fixed_dictionaries({"a": gen.vec(("moderate",)), "b": gen.vec(("moderate",)), "beta3": gen.beta3(moderate=True),
+                                      "s": st.fixed_dictionaries({"angle": st.floats(-3.0, 3.0), "factor": gen.factor(), "beta": gen.moderate_beta(),
+                                                                  "gamma": gen.moderate_gamma(), "tolerance": st.sampled_from((0.0, 1e-5, 0.1)),
+                                                                  "phi": st.floats(-3.0, 3.0), "theta": st.floats(-3.0, 3.0), "psi": st.floats(-3.0, 3.0),
+                                                                  "rtol": st.just(1e-5), "atol": st.just(1e-8), "quat": gen.quaternion(),
+                                                                  "m2": gen.matrix(2), "m3": gen.matrix(3), "m4": gen.matrix(4),
+                                                                  "order": st.sampled_from(gen.EULER_ORDERS), "yaw": st.floats(-3.0, 3.0),
+                                                                  "pitch": st.floats(-1.5, 1.5), "roll": st.floats(-3.0, 3.0)})})
     if cell["group"] == "hooks":
         return st.fixed_dictionaries({"v": gen.vec(("moderate",)), "w": gen.vec(("moderate",)), "s": gen.factor(),
                                       "repeat": st.integers(4, 8), "perm": st.integers(0, 2**30)})
@@ -353,6 +368,8 @@ def check_case(cell, case, ctx):
         _threads(cell, case, ctx)
     elif g == "hooks":
         _hooks(cell, case, ctx)
+    elif g == "sweep":
+        _sweep(cell, case, ctx)
     else:
         _cold(cell, case, ctx)
     ctx.evaluations -= 1
@@ -580,6 +597,56 @@ def _threads(cell, case, ctx):
     finally:
         sys.setswitchinterval(old)
         wctx.__exit__(None, None, None)
+
+
+def _light_state():
+    return (tuple(sorted(numpy.geterr().items())), id(numpy.geterrcall()), len(warnings.filters), tuple(id(f) for f in warnings.filters[:8]),
+            tuple(sorted((k, repr(v)) for k, v in numpy.get_printoptions().items())), len(ak.behavior), len(vector.backends.awkward.behavior),
+            getattr(vector, "_awkward_registered", None))
+
+
+def _sweep(cell, case, ctx):
+    """one call per (operation, signature) on the object backend (plus NumPy for the shard's first signature), process-wide
+    state compared around every call, under a non-default error state and warnings filter"""
+    names = sorted(n for n, o in OPS.items() if "synonym" not in o.tags)
+    mine = [n for i, n in enumerate(names) if i % 16 == cell["shard"]]
+    saved_err = numpy.geterr()
+    try:
+        with warnings.catch_warnings():
+            warnings.simplefilter("error" if cell["shard"] % 2 else "always")
+            numpy.seterr(divide="warn", over="warn", under="ignore", invalid="warn")
+            for name in mine:
+                op = OPS[name]
+                for da in op.self_dims:
+                    for db in op.other_dims(da):
+                        for sa in R.SYSTEMS[da]:
+                            for sb in (R.SYSTEMS[db] if db else [None]):
+                                a = tuple(mpf(x) for x in case["a"]["c"][:da])
+                                bsrc = case["b"]["c"] if db != 3 or "boost" not in op.tags else [*case["beta3"], 0.0]
+                                b = tuple(mpf(x) for x in bsrc[:db]) if db else None
+                                if not R.representable(sa, a) or (db and not R.representable(sb, b)):
+                                    continue
+                                v = mpbackend.make(sa, tuple(float(x) for x in R.from_cartesian(sa, a)), op.momentum, False)
+                                w = mpbackend.make(sb, tuple(float(x) for x in R.from_cartesian(sb, b)), False, False) if db else None
+                                s_ = {k: case["s"][k] for k in op.scalars}
+                                before = _light_state()
+                                try:
+                                    op.call(v, w, s_)
+                                    outcome = "returned"
+                                except Exception as ex:  # noqa: BLE001
+                                    outcome = "raised " + type(ex).__name__
+                                after = _light_state()
+                                ctx.evaluation()
+                                if before != after:
+                                    full = [x for x, y in zip(before, after) if x != y]
+                                    ctx.fail("state_changed", f"{name} on {da}{R.sysname(sa)}" + (f"+{db}{R.sysname(sb)}" if db else "") +
+                                             f" ({outcome}) changed process-wide state: {str(full)[:200]} -> "
+                                             f"{str([y for x, y in zip(before, after) if x != y])[:200]}", op=name,
+                                             variant=f"{da}{R.sysname(sa)}" + (f"+{db}{R.sysname(sb)}" if db else ""), backend="object")
+                                    return
+                ctx.nontrivial(key=[cell["id"], name], sample={"operation": name, "signatures": "all"})
+    finally:
+        numpy.seterr(**saved_err)
 
 
 def _hook_calls(case):
